@@ -58,7 +58,7 @@ Definition quality_relb (t : mtype) (rs : list mrange) (q : Q) : bool :=
 
 (* oracle on an implementation quality value: 1 ok, 0 violated, 2 not applicable (the header or
    the media type does not parse) *)
-Definition quality_ok (o : oracle) (media_type header : str) (q : Q) : N :=
+Definition quality_ok (o : cfg) (media_type header : str) (q : Q) : N :=
   match parse_media_type media_type, parse_media_ranges o header with
   | Some t, Ok rs => if quality_relb t rs q then 1%N else 0%N
   | _, _ => 2%N
